@@ -223,6 +223,7 @@ func (w *hpW) state(op, a, b int) {
 func hpCatch(f func()) (panicked bool) {
 	defer func() {
 		if p := recover(); p != nil {
+			passThrough(p)
 			panicked = true
 		}
 	}()
@@ -515,6 +516,7 @@ func (w *hpW) readArray() bool {
 	status := func() (status int) { // 0 fine, 1 panicked, 2 short, 3 wrong item
 		defer func() {
 			if p := recover(); p != nil {
+				passThrough(p)
 				status = 1
 			}
 		}()
@@ -841,6 +843,7 @@ func (w *hpW) pqObserve(after string) {
 	}
 	defer func() {
 		if p := recover(); p != nil {
+			passThrough(p)
 			r.Violate("C05", "pq/observer-panicked/after-"+after, "after %s: Len/Contains/Priority/Peek panicked on a queue that the model says holds %d keys: %v", after, w.n, p)
 		}
 	}()
